@@ -1,2 +1,4 @@
 -- C01 property theorems (one module per backend / topic)
 import Dalek.Props.C01.Field51
+import Dalek.Props.C01.Field26
+import Dalek.Props.C01.Pow2k
